@@ -70,18 +70,30 @@ func classOf(argv []string) (string, string) {
 	return "other:" + j, ""
 }
 
+// readGitLog returns the invocations in the order they were started, each completed with what its
+// "end" line says (an invocation that never ended - git-sizer exited first - keeps zero values).
 func readGitLog(path string) []gitLogRec {
 	b, err := os.ReadFile(path)
 	if err != nil {
 		return nil
 	}
 	var out []gitLogRec
+	idx := map[int]int{}
 	sc := bufio.NewScanner(bytes.NewReader(b))
 	sc.Buffer(make([]byte, 1<<20), 1<<24)
 	for sc.Scan() {
-		var r gitLogRec
-		if json.Unmarshal(sc.Bytes(), &r) == nil {
-			out = append(out, r)
+		var r struct {
+			gitLogRec
+			Phase string `json:"phase"`
+		}
+		if json.Unmarshal(sc.Bytes(), &r) != nil {
+			continue
+		}
+		if r.Phase == "start" {
+			idx[r.Pid] = len(out)
+			out = append(out, r.gitLogRec)
+		} else if i, ok := idx[r.Pid]; ok {
+			out[i] = r.gitLogRec
 		}
 	}
 	return out
